@@ -566,10 +566,11 @@ func analyseWindow(c *Check, w *World, tb *TB, iv *IV, pfx string, entry *ssa.Fu
 			}
 			return out
 		}
+		// conditions inside deeper levels (wrapper bodies) hold on every way
 		var common []condSrc
-		for k := s.loopLvl; k < len(s.levels); k++ {
+		for k := s.loopLvl + 1; k < len(s.levels); k++ {
 			lv := s.levels[k]
-			common = append(common, inLoopConds(lv, CondsAt(lv.inst.Block()), k != s.loopLvl)...)
+			common = append(common, inLoopConds(lv, CondsAt(lv.inst.Block()), true)...)
 		}
 		lv := s.levels[s.loopLvl]
 		var ctrV ssa.Value
@@ -582,14 +583,65 @@ func analyseWindow(c *Check, w *World, tb *TB, iv *IV, pfx string, entry *ssa.Fu
 			argT  *Term
 			conds []condSrc
 		}
-		ways := []way{{s.argT, common}}
-		if ph, ok := ctrV.(*ssa.Phi); ok && ph.Block() != s.header && inNaturalLoopOf(s.header, ph.Block()) {
-			ways = nil
-			for i, pred := range ph.Block().Preds {
-				cs := append([]condSrc(nil), common...)
-				cs = append(cs, inLoopConds(lv, EdgeConds(pred, ph.Block()), false)...)
-				ways = append(ways, way{tb.Val(ph.Edges[i], lv.env), cs})
+		// every acyclic path through the loop body from the loop head to the site is one way: its branch decisions
+		// are its conditions, and a counter argument that is a phi on the path takes the value of the edge used
+		var ways []way
+		body := naturalLoop(s.header)
+		target := lv.inst.Block()
+		var start *ssa.BasicBlock
+		for _, sc := range s.header.Succs {
+			if body[sc] {
+				start = sc
 			}
+		}
+		tooMany := false
+		var dfs func(b *ssa.BasicBlock, trace []*ssa.BasicBlock, conds []condSrc)
+		dfs = func(b *ssa.BasicBlock, trace []*ssa.BasicBlock, conds []condSrc) {
+			if tooMany || !body[b] || b == s.header {
+				return
+			}
+			for _, t := range trace {
+				if t == b {
+					return
+				}
+			}
+			trace = append(append([]*ssa.BasicBlock(nil), trace...), b)
+			if b == target {
+				argT := s.argT
+				if ph, ok := ctrV.(*ssa.Phi); ok && ph.Block() != s.header {
+					for i := len(trace) - 1; i >= 1; i-- {
+						if trace[i] == ph.Block() {
+							for k, pr := range ph.Block().Preds {
+								if pr == trace[i-1] {
+									argT = tb.Val(ph.Edges[k], lv.env)
+								}
+							}
+						}
+					}
+				}
+				if len(ways) >= 64 {
+					tooMany = true
+					return
+				}
+				ways = append(ways, way{argT, append(append([]condSrc(nil), common...), conds...)})
+				return
+			}
+			if iff, ok := b.Instrs[len(b.Instrs)-1].(*ssa.If); ok && b.Succs[0] != b.Succs[1] {
+				ct := tb.Val(iff.Cond, lv.env)
+				dfs(b.Succs[0], trace, append(append([]condSrc(nil), conds...), condSrc{ct, true}))
+				dfs(b.Succs[1], trace, append(append([]condSrc(nil), conds...), condSrc{ct, false}))
+				return
+			}
+			for _, sc := range b.Succs {
+				dfs(sc, trace, conds)
+			}
+		}
+		if start != nil {
+			dfs(start, []*ssa.BasicBlock{s.header}, nil)
+		}
+		if tooMany || len(ways) == 0 {
+			c.Unk(pfx+".2", fn, "window-loop", "the paths from the loop head to the per-step validation cannot be enumerated", w.InstrPos(lv.inst))
+			return nil
 		}
 		for _, wy := range ways {
 			part := &winPart{argL: (&linMaker{w: w, modular: true}).of(wy.argT)}
